@@ -48,16 +48,23 @@ def allocation(run, f):
     run.count_body(b)
     tr = tracer_of(b)
     a0 = strip_wrappers(tr.norm(tr.call_args(blk.idx)[0]))
+    hb = b
+    # the allocation may live in a small crate-local helper (`fn next_actor_id() -> u64`)
+    if a0[0] == "call" and f.body(a0[2]) is not None and not f.fns.get(a0[2], {}).get("async"):
+        hb = f.body(a0[2])
+        run.count_body(hb)
+        tr = tracer_of(hb)
+        a0 = strip_wrappers(tr.norm(tr.local(0)))
     okf = a0[0] == "call" and a0[2].startswith("std::sync::atomic::Atomic") and a0[2].endswith("fetch_add")
     static = None
     inc = None
     if okf:
-        t = b.blocks[a0[1]].term
+        t = hb.blocks[a0[1]].term
         pl = t["args"][0].get("move") or t["args"][0].get("copy")
-        static = _static_of(b, tr, pl) if pl else None
+        static = _static_of(hb, tr, pl) if pl else None
         inc = const_int(t["args"][1])
     run.require(okf and static is not None and inc not in (None, 0), "O11.1", "id-from-atomic-counter",
-                "the actor id is %s (static %s, increment %s), not fetch_add(non-zero constant) on a static atomic" % (show(a0), static, inc),
+                "the actor id is %s (static %s, increment %s), not the result of one atomic fetch_add(non-zero constant) on a static atomic (a load/compute/store sequence is not atomic: two concurrent spawns can get the same id)" % (show(a0), static, inc),
                 "id = %s.fetch_add(%s)" % (static, inc), loc=loc_of(b, blk))
     if static:
         users = set()
@@ -66,10 +73,11 @@ def allocation(run, f):
                 for st in bk.stmts:
                     if st["k"] == "assign" and "use" in st["rv"] and "const" in st["rv"]["use"] and st["rv"]["use"]["const"].get("static") == static:
                         users.add(bd.name)
-        run.require(users == {b.name}, "O11.1", "counter-private", "the id counter is referenced from %s" % sorted(users), "counter referenced only from %s" % b.name)
+        run.require(users == {hb.name}, "O11.1", "counter-private", "the id counter is referenced from %s" % sorted(users), "counter referenced only from %s" % hb.name)
         sd = [s for s in f.statics if s["def"] == static]
         run.require(len(sd) == 1 and "Atomic" in f.ty(sd[0]["ty"]).s and not sd[0]["mut"], "O11.1", "counter-is-atomic", "the id counter is not an immutable static atomic", "static %s: %s" % (static, f.ty(sd[0]["ty"]).s if sd else "?"))
     # feeds the one ActorRef::new
+    tr = tracer_of(b)
     news = [k for k in live_calls(b) if callee(k.term) == "actor_ref::ActorRef::<T>::new"]
     okn = len(news) == 1 and strip_wrappers(tr.norm(tr.call_args(news[0].idx)[0])) == ("call", blk.idx, "Identity::new")
     run.require(okn, "O11.1", "identity-into-actorref", "the allocated Identity is not the one given to ActorRef::new", "ActorRef::new(actor_id, ..)")
